@@ -647,7 +647,7 @@ def minimise(plan: dict, refs: dict, figdir: str, v: dict, refcache: RefCache, b
     """ddmin over operations, then un-share flags, then drop optional recipe
     parts; keep a candidate iff the same violation class reappears."""
     cls = v["class"]
-    budget = [budget_n]
+    budget = [budget_n if not os.environ.get("VERIF_STOP_AFTER_FIRST") else 2]  # regression tooling: no shrinking
     cur = json_copy(plan)
 
     def test_ops(ops):
